@@ -32,24 +32,27 @@ Definition wf_links (ls : list link) : bool :=
   nodup_nat (map l_id ls)
   && forallb (fun l => Nat.ltb (l_id l) 10 && str_eqb (last (split_key (l_target l)) []) (param_name (l_id l))) ls.
 
-(* class 0 = inside the guards of the C16 link theorems;
-   class 1 = a component that is only a source of links encloses the target of another link (finding nested-target-order);
-   class 2 = a source nested in a class group feeds a target outside the group (finding source-under-group) *)
-Definition link_class (ds : list decl) (ls : list link) : N :=
-  if negb (enclosing_ok_all (components ds) ls) then 1%N
-  else if group_nested_source (components ds) ls then 2%N
-  else 0%N.
-
-Definition judge1 (c : case) : verdict :=
+(* v_class = Model.LinkOrder.link_class: the very function that guards the theorems of Properties/C16.v *)
+Definition judge1_with (fx : fixes) (c : case) : verdict :=
   match c with
   | GraphCase es obs =>
       {| v_model := out_eqb (topo (build es)) obs;
          v_class := 0;
          v_spec := spec_ok es obs |}
   | LinkCase ds ls obs =>
-      {| v_model := wf_links ls && obs_eqb (run ds ls) obs;
-         v_class := link_class ds ls;
+      {| v_model := wf_links ls && obs_eqb (run fx ds ls) obs;
+         v_class := link_class fx ds ls;
          v_spec := link_spec_ok ds ls obs |}
   end.
 
+(* the pinned tree *)
+Definition judge1 := judge1_with nofix.
 Definition judge (cs : list case) := judge_all judge1 cs.
+
+(* after the repairs have been applied to the implementation: set JUDGE in tie/props/c16.py to
+   "judge_fixed_order"  (fixes/C16-nested-target-order.patch only),
+   "judge_fixed_source" (fixes/C16-source-under-group.patch only) or
+   "judge_fixed"        (both); the model is then the repaired code and the repaired finding has no class left. *)
+Definition judge_fixed_order (cs : list case) := judge_all (judge1_with {| fx_order := true; fx_source := false |}) cs.
+Definition judge_fixed_source (cs : list case) := judge_all (judge1_with {| fx_order := false; fx_source := true |}) cs.
+Definition judge_fixed (cs : list case) := judge_all (judge1_with allfix) cs.
